@@ -154,7 +154,7 @@ def replay(ctx, obj):
 
 
 def run(ctx):
-    explore(ctx, ctx.subrng("grid"), ctx.budget(1500, 15000))
+    explore(ctx, ctx.subrng("grid"), ctx.budget(3000, 20000))
 
 
 def search(ctx):
